@@ -161,8 +161,8 @@ class Session:
     def uses_draws(self):
         return self.cfg['template'] in ('mixed', 'mixed2')
 
-    def build(self, form, betas):
-        specs_ = {k: (v, None, None, 0) for k, v in betas.items()}
+    def build(self, form, betas, bounds=(None, None)):
+        specs_ = {k: (v, bounds[0], bounds[1], 0) for k, v in betas.items()}
         b = ref.Builder(specs_, share_elementary=True)
         import biogeme.expressions as ex
         row = b.build(self.row_ast())
@@ -362,11 +362,13 @@ class Session:
                 import biogeme.expressions as ex
                 sp_ = {k_: (v_, None, None, 0) for k_, v_ in betas0.items()}
                 rb = ref.Builder(sp_, share_elementary=True)
-                core_ = self.build(lform, betas0)
+                # ... and bounds keep the trial points of the optimiser where the engine can evaluate the formula (a
+                # trial point far away makes the engine raise, and its error path is not safe with several threads)
+                core_ = self.build(lform, betas0, bounds=(-6.0, 6.0))
                 pen_names = sorted(ref.collect(self.row_ast(), [])['beta'])
                 pen = None
                 for n_ in pen_names:
-                    t_ = ex.Beta(n_, betas0[n_], None, None, 0)
+                    t_ = ex.Beta(n_, betas0[n_], -6.0, 6.0, 0)
                     pen = t_ * t_ if pen is None else pen + t_ * t_
                 e = core_ - 0.1 * pen
                 p = Parameters()
